@@ -56,6 +56,28 @@ func c15Goto(c *Ctx, p *Prog) {
 		return
 	}
 	found := false
+	// TGoto is a function of the addressing string and the position only: what it returns is
+	// the result of evaluating the string now (no remembered results, no package-level state)
+	{
+		impure := ""
+		eachInstr(fn, func(in ssa.Instruction) {
+			for _, op := range in.Operands(nil) {
+				if g, ok := (*op).(*ssa.Global); ok {
+					impure += "uses package-level " + g.Name() + "; "
+				}
+			}
+		})
+		for _, r := range returnsOf(fn) {
+			if len(r.Results) != 1 {
+				continue
+			}
+			call, ok := resultOf(r, 0).(*ssa.Call)
+			if !ok || !strings.HasSuffix(calleeName(&call.Call), "Terminfo).TParm") {
+				impure += "returns " + valName(resultOf(r, 0)) + " at " + p.pos(r.Pos()) + "; "
+			}
+		}
+		c.Check(impure == "", "C15-R1", "TGoto:pure", p.pos(fn.Pos()), "every return is the result of TParm evaluated in this call "+impure)
+	}
 	eachInstr(fn, func(in ssa.Instruction) {
 		cc := callCommon(in)
 		if cc == nil || !strings.HasSuffix(calleeName(cc), "Terminfo).TParm") || len(cc.Args) != 3 {
